@@ -66,6 +66,9 @@ func VF_C18_gate() {
 	}
 	vfAssert(string(ver) == V, "the declared version is stored as written")
 	err := NewDefaultValidator(B).Validate(Input{Version: &ver})
+	if err != nil {
+		vfObserve("diagnostics", err.Error())
+	}
 	if !semver.IsValid("v" + B) {
 		vfAssert(err == nil, "non-semver build: check skipped")
 		vfReach("C18_gate_invalidB")
